@@ -14,54 +14,54 @@ import (
 )
 
 type JSONWriteRow struct {
-	Kind     string // prop | embedded | additional | comma
-	Key      string
-	Field    *types.Var
-	Optional bool // written only under <field>.Get()
-	NullCapable bool // v stays nil on some path (Nullable)
-	NilSliceFix bool // nil slice replaced by empty
-	ViaCommaWriter bool // embedded member written through &commaWriter{w: out, comma: comma}
+	Kind              string // prop | embedded | additional | comma
+	Key               string
+	Field             *types.Var
+	Optional          bool // written only under <field>.Get()
+	NullCapable       bool // v stays nil on some path (Nullable)
+	NilSliceFix       bool // nil slice replaced by empty
+	ViaCommaWriter    bool // embedded member written through &commaWriter{w: out, comma: comma}
 	AdvancesIfWritten bool // `if cw.written { comma = "," }`
-	KeyConst bool
-	Calls    []string
-	Pos      token.Pos
+	KeyConst          bool
+	Calls             []string
+	Pos               token.Pos
 }
 
 type JSONReadRow struct {
-	Kind      string // prop | embedded | additional
-	Key       string
-	Field     *types.Var
-	Required  bool // else-branch returns a missing-key error
+	Kind            string // prop | embedded | additional
+	Key             string
+	Field           *types.Var
+	Required        bool // else-branch returns a missing-key error
 	MissingNamesKey bool
-	SetsIsSet bool
-	Deletes   bool
-	NullTest  bool
-	DecodeTargets []types.Type // types of the variables handed to json.Unmarshal(raw, &x)
-	Problems  []string
-	Pos       token.Pos
+	SetsIsSet       bool
+	Deletes         bool
+	NullTest        bool
+	DecodeTargets   []types.Type // types of the variables handed to json.Unmarshal(raw, &x)
+	Problems        []string
+	Pos             token.Pos
 }
 
 type JSONObject struct {
-	Type      *types.Named
-	Writer    []JSONWriteRow
-	Reader    []JSONReadRow
-	WDecl, RDecl *ast.FuncDecl
-	WUndecided []string
-	RUndecided []string
-	KeyQuoted bool // writeProperty passes the key through a JSON quoting function
+	Type            *types.Named
+	Writer          []JSONWriteRow
+	Reader          []JSONReadRow
+	WDecl, RDecl    *ast.FuncDecl
+	WUndecided      []string
+	RUndecided      []string
+	KeyQuoted       bool   // writeProperty passes the key through a JSON quoting function
 	WritePropertyOK string // "" or reason
-	Emits     string // never | maybe | always (summary of the writer)
+	Emits           string // never | maybe | always (summary of the writer)
 }
 
 type JSONOneOf struct {
-	Type     *types.Named
-	Variants []string          // field names in order
-	Discriminator string       // "" when probing
-	Cases    map[string]string // discriminator value -> unmarshalJSON_<X> suffix
-	DefaultErr bool
-	ProbeOrder []string
-	Undecided []string
-	Decl     *ast.FuncDecl
+	Type          *types.Named
+	Variants      []string          // field names in order
+	Discriminator string            // "" when probing
+	Cases         map[string]string // discriminator value -> unmarshalJSON_<X> suffix
+	DefaultErr    bool
+	ProbeOrder    []string
+	Undecided     []string
+	Decl          *ast.FuncDecl
 }
 
 func methodDecl(p *Program, recv, name string) *ast.FuncDecl { return p.funcDecl(recv, name) }
@@ -988,6 +988,63 @@ func commaWriterShape(p *Program) string {
 	ret, ok := fd.Body.List[3].(*ast.ReturnStmt)
 	if !ok || len(ret.Results) != 1 || types.ExprString(ret.Results[0]) != r+".w.Write("+bs.Name()+")" {
 		return "commaWriter.Write: payload is not forwarded unchanged"
+	}
+	return ""
+}
+
+// arrayComponentProblem: for a named slice type with a generated MarshalJSON,
+// "" when every path writes `[` … `]` (a nil slice encodes as []), otherwise the reason.
+func arrayComponentProblem(p *Program, n *types.Named) string {
+	if _, ok := n.Underlying().(*types.Slice); !ok {
+		return ""
+	}
+	fd := p.funcDecl(n.Obj().Name(), "MarshalJSON")
+	if fd == nil {
+		return ""
+	}
+	info := p.Pkg.TypesInfo
+	opens, closes := 0, 0
+	bad := ""
+	var walk func(list []ast.Stmt, top bool)
+	walk = func(list []ast.Stmt, top bool) {
+		for _, st := range list {
+			switch s := st.(type) {
+			case *ast.ReturnStmt:
+				if len(s.Results) != 2 {
+					bad = "unexpected return"
+					continue
+				}
+				r0 := types.ExprString(s.Results[0])
+				if !(isNilIdent(s.Results[0]) && !isNilIdent(s.Results[1])) && !(strings.HasSuffix(r0, ".Bytes()") && top) {
+					bad = "MarshalJSON of array component " + n.Obj().Name() + " returns " + r0 + " on some path instead of the bracketed element list: a nil slice would encode as something other than []"
+				}
+			case *ast.IfStmt:
+				walk(s.Body.List, false)
+				if b, ok := s.Else.(*ast.BlockStmt); ok {
+					walk(b.List, false)
+				}
+			case *ast.ExprStmt:
+				if call, ok := s.X.(*ast.CallExpr); ok && len(call.Args) == 1 {
+					if conv, ok := call.Args[0].(*ast.CallExpr); ok && len(conv.Args) == 1 {
+						if tv := info.Types[conv.Args[0]]; tv.Value != nil && top {
+							switch constant.StringVal(tv.Value) {
+							case "[":
+								opens++
+							case "]":
+								closes++
+							}
+						}
+					}
+				}
+			}
+		}
+	}
+	walk(fd.Body.List, true)
+	if bad != "" {
+		return bad
+	}
+	if opens != 1 || closes != 1 {
+		return "MarshalJSON of array component " + n.Obj().Name() + " does not write exactly one '[' and one ']' unconditionally"
 	}
 	return ""
 }
